@@ -586,3 +586,28 @@ Theorem C01K_example_program :
   /\ match jeval cten (kpsem exact_table) ex_lit3 ex_prog ex_r0 with Some r' => r' 5%nat | None => None end <> None.
 Proof. rewrite ex_prog_onnx, ex_prog_jax. split; [reflexivity | discriminate]. Qed.
 Print Assumptions C01K_example_program.
+
+(* ---- the jax.numpy substitutes with their own integer lowering (jnp.floor_divide is C01K_floor_divide_correct above: its
+   lowered_floor_divide IS the jax.numpy plugin's graph; the others share the lax kernels' graphs, checked by tie S) *)
+Theorem C01K_abs_unsigned_correct : forall sb x, 0 < snd sb -> is_signed sb = false -> in_int sb x -> lowered_abs sb x = jax_abs sb x.
+Proof. exact abs_unsigned_correct. Qed.
+Print Assumptions C01K_abs_unsigned_correct.
+Theorem C01K_clip_op_correct : forall x lo hi, lowered_clip_op x lo hi = jax_clip x lo hi.
+Proof. exact clip_op_correct. Qed.
+Print Assumptions C01K_clip_op_correct.
+Theorem C01K_clip_op_lifted : forall X Lo Hi u, bcommon [shape X; shape Lo; shape Hi] u ->
+  teq (kev_t ke_clip_op [zt X; zt Lo; zt Hi]) (zt (tmap3b jax_clip X Lo Hi)).
+Proof. exact clip_op_lifted. Qed.
+Print Assumptions C01K_clip_op_lifted.
+Theorem C01K_jnp_power_constant_exponent_correct : forall sb x n, 0 < snd sb ->
+  prerepair_integer_pow sb x n = jax_integer_pow sb x n.
+Proof. exact prerepair_integer_pow_correct. Qed.
+Print Assumptions C01K_jnp_power_constant_exponent_correct.
+Theorem C01K_relu_repaired_correct : forall sb x, in_int sb x -> repaired_relu sb x = jax_relu x.
+Proof. exact repaired_relu_correct. Qed.
+Print Assumptions C01K_relu_repaired_correct.
+(* composition of kernel graphs (what tie (e) checks the real multi-equation exports against) *)
+Theorem C01K_composition_of_graphs : forall e args xs, kok (length args) e ->
+  kev_s (ksubst e args) xs = kev_s e (map (fun a => kev_s a xs) args).
+Proof. exact kev_s_ksubst. Qed.
+Print Assumptions C01K_composition_of_graphs.
